@@ -143,6 +143,30 @@ RuleKernelSums(b, overage, offset) ==
 \* The kernel offset of a block is what its header adds to the previous total.
 BlockOffset(c) == c.total - c.prev
 
+\* Transaction::validate takes the weighting from its caller (verify_weight): AsTransaction bounds the body by
+\* the block weight less the room for a coinbase output and kernel, AsLimitedTransaction(m) by min(block weight, m)
+\* less the same room (the pool's mineable selection), NoLimit skips the weight rule (pool aggregates).  Nothing
+\* else depends on it: every other rule is applied under each weighting.
+TxWeightings   == {"tx", "limited", "nolimit"}
+CoinbaseWeight == OutputWeight + KernelWeight
+LimitedMax     == 70       \* the m of AsLimitedTransaction(m) in the generated cases: the bound 46 is met exactly by 1 in / 2 out / 1 kernel
+NoBound        == 1000000
+TxWeightBound(w) ==
+  CASE w = "tx"      -> MaxTxWeight
+    [] w = "limited" -> (IF LimitedMax < MaxBlockWeight THEN LimitedMax ELSE MaxBlockWeight) - CoinbaseWeight
+    [] OTHER         -> NoBound
+
+TxRulesW(b, c, w) == <<
+  <<"features_outputs", RuleNoCoinbaseOutputs(b)>>,
+  <<"features_kernels", RuleNoCoinbaseKernels(b)>>,
+  <<"weight",           RuleWeight(b, TxWeightBound(w))>>,
+  <<"nrd_duplicates",   RuleNoNrdDuplicates(b, c)>>,
+  <<"sorted_unique",    RuleUnique(b)>>,
+  <<"cut_through",      RuleCutThrough(b)>>,
+  <<"range_proofs",     RuleRangeProofs(b)>>,
+  <<"signatures",       RuleSignatures(b)>>,
+  <<"kernel_sums",      RuleKernelSums(b, Fee(b), b.off)>> >>
+
 TxRules(b, c) == <<
   <<"features_outputs", RuleNoCoinbaseOutputs(b)>>,
   <<"features_kernels", RuleNoCoinbaseKernels(b)>>,
@@ -185,6 +209,30 @@ BlockBodyValid(b, c) ==
   /\ RuleCoinbase(b)
   /\ RuleKernelSums(b, 0 - Reward, BlockOffset(c))
 Valid(b, c) == IF c.as = "tx" THEN TxValid(b, c) ELSE BlockBodyValid(b, c)
+\* every rule but the weight rule (the part of the verdict that no weighting changes), and the verdict under a weighting
+RestValid(b, c) ==
+  IF c.as = "tx"
+  THEN /\ RuleNoCoinbaseOutputs(b) /\ RuleNoCoinbaseKernels(b)
+       /\ RuleNoNrdDuplicates(b, c) /\ RuleUnique(b) /\ RuleCutThrough(b)
+       /\ RuleRangeProofs(b) /\ RuleSignatures(b)
+       /\ RuleKernelSums(b, Fee(b), b.off)
+  ELSE /\ RuleNoNrdDuplicates(b, c) /\ RuleUnique(b) /\ RuleCutThrough(b)
+       /\ RuleRangeProofs(b) /\ RuleSignatures(b)
+       /\ RuleLockHeights(b, c) /\ RuleNrdVersion(b, c)
+       /\ RuleCoinbase(b)
+       /\ RuleKernelSums(b, 0 - Reward, BlockOffset(c))
+TxValidW(b, c, w) == RuleWeight(b, TxWeightBound(w)) /\ RestValid(b, c)
+FirstFailingW(b, c, w) ==
+  LET rs == TxRulesW(b, c, w)
+      bad == {i \in 1..Len(rs) : ~rs[i][2]}
+  IN  IF bad = {} THEN "none" ELSE rs[CHOOSE i \in bad : \A j \in bad : i <= j][1]
+
+\* Inputs reach the validators in two representations: Inputs::CommitOnly (commitments) and
+\* Inputs::FeaturesAndCommit (the commitment plus the output features the spender CLAIMS: field f of an input,
+\* "cb" = coinbase; chain-level code checks the claim against the UTXO set, the rules above never read it).
+\* Every rule reads commitments only (inputs_committed), so the verdict is the same under both; the generator
+\* realises cases under both (MC_TxBalance!Realisations).
+InputVariants == {"co", "fc"}
 
 \* ---- the property (definition of conservation; no reference to the rules above)
 AllProven(b) == (\A i \in 1..Len(b.outs) : b.outs[i].pf) /\ (\A i \in 1..Len(b.kerns) : b.kerns[i].sg)
@@ -257,9 +305,16 @@ AllValueChoices(g) ==
 
 ValueChoices(g) == AllValueChoices(g)     \* MC modules may substitute a sample
 
+\* fs: the fee_shift (bits 40..43 of the fee field, FeeFields::fee_shift): a relay priority.  It is no value:
+\* KFee is the masked fee whatever fs says, and no rule reads fs.
 MkKernel(kind, fee, x, sid) ==
-  [kind |-> kind, fee |-> fee, lock |-> IF kind = "hl" THEN Height ELSE 0,
+  [kind |-> kind, fee |-> fee, fs |-> 0, lock |-> IF kind = "hl" THEN Height ELSE 0,
    rel |-> IF kind = "nrd" THEN 1 ELSE 0, x |-> x, sg |-> TRUE, sid |-> sid]
+MaxFeeShift == 15
+\* a fee of a few nanogrin: shifted right by MaxFeeShift nothing is left of it (Transaction::shifted_fee)
+NanoOnly(f) == f > 0 /\ DigitA(f) = 0 /\ DigitB(f) = 0
+\* 2^40 nanogrin (one unit of the fee_shift bits read as an amount) = (2^40 - 1) + 1
+ShiftBit == MaxFee + Nano
 
 Blinds == 1..NBlind
 Cyc(i, a) == 1 + ((i - 1 + a) % NBlind)
@@ -332,7 +387,8 @@ HasNrd(b) == \E i \in Idx(b.kerns) : b.kerns[i].kind = "nrd"
 WellFormed(b) ==
   /\ \A i \in Idx(b.ins) : AmountOk(b.ins[i].v)
   /\ \A i \in Idx(b.outs) : AmountOk(b.outs[i].v)
-  /\ \A i \in Idx(b.kerns) : b.kerns[i].x # 0 /\ b.kerns[i].fee >= 0 /\ FeeFieldsOk(b.kerns[i].fee)
+  /\ \A i \in Idx(b.kerns) : /\ b.kerns[i].x # 0 /\ b.kerns[i].fee >= 0 /\ FeeFieldsOk(b.kerns[i].fee)
+                              /\ b.kerns[i].fs \in 0..MaxFeeShift /\ (b.kerns[i].fs > 0 => b.kerns[i].fee > 0)
 
 RawCorruptions(b, c) ==
   \* amount +-1 on an output / input (proof regenerated for the new amount: only the sums can tell)
@@ -407,6 +463,30 @@ RawCorruptions(b, c) ==
   \cup {C("output_duplicated", [b EXCEPT !.outs = Append(@, b.outs[i])], c) : i \in Idx(b.outs)}
   \cup {C("spends_own_output", [b EXCEPT !.ins = Append(@, [v |-> 1, r |-> 4]),
                                          !.outs = Append(@, [v |-> 1, r |-> 4, cb |-> FALSE, pf |-> TRUE])], c)}
+  \* an input spent but accounted for nowhere: it claims coinbase features (visible in the FeaturesAndCommit
+  \* representation only); what leaving "coinbase spends" out of the sums would hide
+  \cup {C("input_added_unaccounted", [b EXCEPT !.ins = Append(@, [v |-> 1, r |-> 6, f |-> "cb"])], c)}
+  \* fee_shift set on a fee-carrying kernel (re-signed): the priority bits are no value, the body stays as valid as it was
+  \cup {C("fee_shift_set", [b EXCEPT !.kerns[i].fs = s, !.kerns[i].sid = NewSid(b)], c) :
+          i \in {j \in Idx(b.kerns) : b.kerns[j].kind # "cb" /\ b.kerns[j].fee > 0 /\ b.kerns[j].fs = 0}, s \in {1, MaxFeeShift}}
+  \* ... the fee is not paid and the shift makes the shifted fee vanish: outputs equal inputs (transaction; what
+  \* balancing against shifted_fee would hide)
+  \cup (IF c.as = "tx" /\ NanoOnly(Fee(b))
+        THEN {C("fee_shift_hides_unpaid_fee",
+                [b EXCEPT !.kerns[i].fs = MaxFeeShift, !.kerns[i].sid = NewSid(b), !.outs[j].v = @ + Fee(b)], c) :
+                i \in {k \in Idx(b.kerns) : b.kerns[k].fee > 0}, j \in Idx(b.outs)}
+        ELSE {})
+  \* ... the shift bits are read as part of the fee: the transaction pays 2^40 nanogrin more than its kernels say;
+  \* in a block an input brings them and the coinbase claims them as if they were fees (what reading the fee
+  \* without the mask would hide)
+  \cup (IF c.as = "tx"
+        THEN {C("fee_shift_bits_paid_as_fee",
+                [b EXCEPT !.kerns[i].fs = 1, !.kerns[i].sid = NewSid(b), !.ins[j].v = @ + ShiftBit], c) :
+                i \in {k \in Idx(b.kerns) : b.kerns[k].fee > 0}, j \in Idx(b.ins)}
+        ELSE {C("fee_shift_bits_claimed_by_coinbase",
+                [b EXCEPT !.kerns[i].fs = 1, !.kerns[i].sid = NewSid(b), !.ins[m].v = @ + ShiftBit, !.outs[j].v = @ + ShiftBit], c) :
+                i \in {k \in Idx(b.kerns) : b.kerns[k].kind # "cb" /\ b.kerns[k].fee > 0}, m \in Idx(b.ins),
+                j \in {k \in Idx(b.outs) : b.outs[k].cb}})
   \* block-only rules: lock height above the block height, NRD kernel before HF3 / with NRD disabled
   \cup (IF c.as = "block"
         THEN {C("lock_height_future", [b EXCEPT !.kerns[i].lock = c.height + 1], c) :
@@ -429,7 +509,10 @@ AlwaysRefused == {
   "coinbase_flag_set_output", "coinbase_flag_cleared_output", "coinbase_flag_set_kernel",
   "coinbase_flag_cleared_kernel", "coinbase_forged_value", "coinbase_minted_in_tx",
   "reward_overclaim_plain_output", "fees_paid_to_plain_output", "proof_swapped", "signature_swapped", "input_duplicated",
-  "output_duplicated", "spends_own_output", "lock_height_future", "nrd_before_hf3", "nrd_disabled"}
+  "output_duplicated", "spends_own_output", "lock_height_future", "nrd_before_hf3", "nrd_disabled",
+  "input_added_unaccounted", "fee_shift_hides_unpaid_fee", "fee_shift_bits_paid_as_fee", "fee_shift_bits_claimed_by_coinbase"}
+\* Classes that leave the verdict as it was (checked by TLC)
+VerdictPreserving == {"fee_shift_set"}
 
 -----------------------------------------------------------------------------
 \* The walk  root -> group -> values -> base -> corrupted (-> corrupted)
@@ -490,9 +573,22 @@ RefusedConservingIsStructural ==
 
 \* All of the above in one invariant (one evaluation of Valid per state: what the exhaustive
 \* configurations check; the named invariants are used to diagnose a failure).
+\* the verdict is the weight rule and the rest (named configuration)
+ValidSplit ==
+  HasBody => /\ Valid(body, ctx) <=> (RuleWeight(body, IF ctx.as = "tx" THEN MaxTxWeight ELSE MaxBlockWeight) /\ RestValid(body, ctx))
+             /\ ctx.as = "tx" => \A w \in TxWeightings : TxValidW(body, ctx, w) <=> (FirstFailingW(body, ctx, w) = "none")
+             /\ ctx.as = "tx" => (TxValidW(body, ctx, "tx") <=> Valid(body, ctx))
+\* the fee shift is no value: setting it leaves the verdict as it was
+FeeShiftIsNoValue == (HasBody /\ Len(applied) = 1 /\ applied[1] \in VerdictPreserving) => Valid(body, ctx)
+\* conservation follows from the rules other than the weight rule, so under no weighting (NoLimit included) is a
+\* body that creates value accepted
+RestImpliesNoValueCreated == HasBody => (RestValid(body, ctx) => NoValueCreated(body, ctx))
+
 AllChecks ==
   HasBody =>
-    LET v   == Valid(body, ctx)
+    LET rv  == RestValid(body, ctx)
+        wb  == IF ctx.as = "tx" THEN MaxTxWeight ELSE MaxBlockWeight
+        v   == RuleWeight(body, wb) /\ rv            \* = Valid(body, ctx), see ValidSplit
         nvc == NoValueCreated(body, ctx)
         ff  == FirstFailing(body, ctx)
     IN  /\ v => nvc
@@ -500,4 +596,10 @@ AllChecks ==
         /\ applied = <<>> => v
         /\ (Len(applied) = 1 /\ applied[1] \in AlwaysRefused) => ~v
         /\ (nvc /\ ~v) => ff \notin {"kernel_sums", "verify_coinbase", "range_proofs", "signatures"}
+        \* every weighting applies the same rest: AsLimitedTransaction is at least as strict as AsTransaction, NoLimit
+        \* drops the weight rule only - and conservation never rested on it
+        /\ rv => nvc
+        /\ TxWeightBound("limited") <= TxWeightBound("tx") /\ TxWeightBound("tx") <= TxWeightBound("nolimit")
+        /\ Weight(body) <= TxWeightBound("nolimit")
+        /\ (Len(applied) = 1 /\ applied[1] \in VerdictPreserving) => v
 =============================================================================
